@@ -128,7 +128,12 @@ Focus == RareContainers \cup AnysOver({R_DictRelaxed, R_Dict, SInt1}) \cup
          SubScalars \cup
          \* unions with an accept-everything alternative on either side, and one wide enough to be
          \* written as (a | b) | (c | d)
-         {AnyOf(<<BareAny, SInt1>>), AnyOf(<<SStrAB, BareAny>>), AnyOf(<<SInt1, SStrAB, BareNone, BareBool>>)}
+         \* (four of each kind: the harness writes the members of one kind in the four ways a union can
+         \* be written -- schema.any(...), a | b, a | (b | c), (a | b) | (c | d) -- in turn)
+         {AnyOf(<<BareAny, x>>) : x \in {SInt1, SStrAB, BareNone, BareBool}} \cup
+         {AnyOf(<<x, BareAny>>) : x \in {SInt1, SStrAB, BareNone, BareBool}} \cup
+         {AnyOf(<<SInt1, SStrAB, BareNone, BareBool>>), AnyOf(<<SStrAB, SInt1, BareBool, BareNone>>),
+          AnyOf(<<BareNone, BareBool, SInt1, SStrAB>>), AnyOf(<<BareBool, BareNone, SStrAB, SInt1>>)}
 
 Containers == Level1 \cup Level2 \cup Wrapped \cup Focus
 
